@@ -120,7 +120,7 @@ def write_ndjson(path, rows):
             f.write(json.dumps(r, separators=(",", ":")) + "\n")
 
 
-REJ = re.compile(r'<<"REJECT", (-?\d+), (-?\d+), "([^"]*)">>')
+REJ = re.compile(r'<<\s*"REJECT",\s*(-?\d+),\s*(-?\d+),\s*"([^"]*)"\s*>>')
 CONS = re.compile(r'<<"CONSUMED", (\d+), (\d+)>>')
 
 
